@@ -17,7 +17,8 @@ CASE_TIMEOUT = 60
 SHRINK_BUDGET = 60
 THEOREMS = ["C06_is_git_tree", "C06_walk_refines", "C06_walk_refines_paths", "C06_walk_total", "C06_listing_order_free",
             "C06_trailing_slash", "C06_trailing_slash_root", "C06_symlink_never_followed", "C06_special_is_empty_file",
-            "C06_exec_bit", "C06_perms_table", "C06_empty_ignored_is_git", "C06_satisfiable"]
+            "C06_exec_bit", "C06_perms_table", "C06_empty_ignored_is_git", "C06_satisfiable",
+            "C06_iter_total", "C06_iter_refines_recursive", "C06_iter_same_ids", "C06_iter_satisfiable"]
 RULE = ("random file-system trees (depth <= 5, <= 120 nodes) materialised in a temporary directory: adversarial byte names "
         "(non-UTF-8, spaces, newlines, names colliding with directories in sort order), file sizes 0..1000 plus a few "
         "around the 32768-byte read block, ten permission patterns, relative/absolute/dangling/self symlinks and links to "
@@ -102,7 +103,9 @@ def impl(c):
 
 def requests(c):
     t = enc_tree(c["tree"])
-    return ["ids all - id " + t, "ids all - rev " + t, "spec " + t, "pruned empty " + t, "ids empty - id " + t]
+    # the last request goes through the literal stack/queue model (from_disk_iter) with the listing reversed
+    return ["ids all - id " + t, "ids all - rev " + t, "spec " + t, "pruned empty " + t, "ids empty - id " + t,
+            "iterids empty - rev " + t]
 
 
 def model(c, resp):
@@ -116,6 +119,7 @@ def model(c, resp):
     res["pruned_empty_id"] = resp[3].split(" ")[1]          # git id of the tree with empty directories physically removed
     e = ids(resp[4])
     res["root_ignore_empty"] = e.get(".") if isinstance(e, dict) else str(e)
+    res["ids_empty"], res["iterids_empty"] = e, ids(resp[5])
     return res
 
 
@@ -146,6 +150,8 @@ def compare(c, ires, mres):
         return "model failed: " + str(mres["ids"])
     if mres["ids"] != mres["ids_rev"]:
         return "MODEL is listing-order dependent (model bug)"
+    if mres["iterids_empty"] != mres["ids_empty"]:
+        return "MODEL: the literal stack/queue model (from_disk_iter) and the recursive model disagree (model bug): %s" % str(mres["iterids_empty"])[:60]
     if mres["root_ignore_empty"] != ires["root_ignore_empty"]:
         return "root id with ignore_empty_directories differs between model and implementation"
     if mres["ids"] != ires["ids"]:
